@@ -134,6 +134,9 @@ func (c *ClientChannel) sendFinishingSession(ctx context.Context) error {
 		State: SessionStateFinishing,
 	}
 
+	// data senders write under sendMu: the request must not be written into the middle of their envelope
+	c.sendMu.Lock()
+	defer c.sendMu.Unlock()
 	return c.sendSession(ctx, &ses)
 }
 
